@@ -410,7 +410,8 @@ theorem subscribers_char (mt : MemTopics) (t : Bytes) (q : Nat) (hwf : WF mt.sro
 
 /-- (e) `onPublish` of a decoded PUBLISH on a good, valid topic name: the
 outputs are, up to the order of map iteration, one forward per entry of the
-trie whose path matches the name under section 4.7 -/
+trie whose path matches the name under section 4.7 - RETAIN = 0 for connections
+and in-process callbacks alike -/
 theorem onPublish_char (b : B) (p : Pub) (hinv : Inv b)
     (hg : good p.topic = true) (hn : validName p.topic = true) (hq : p.qos ≤ 2)
     (hid : p.pktid ≠ 0 ∨ p.qos = 0)
@@ -419,7 +420,7 @@ theorem onPublish_char (b : B) (p : Pub) (hinv : Inv b)
     (onPublish b ⟨p, false⟩).1 = (retainStep b ⟨p, false⟩).1 ∧
     (onPublish b ⟨p, false⟩).2.2.1.Perm
       (((abs b.topics.sroot).filter (fun e => Mqtt.Spec.Match.matchLevels e.1 (split p.topic))).map
-        (fun e => fwd p (e.2.1, min p.qos e.2.2))) := by
+        (fun e => fwd { p with retain := false } (e.2.1, min p.qos e.2.2))) := by
   obtain ⟨hm, hctr⟩ := retainStep_clean b ⟨p, false⟩ rfl
   obtain ⟨f1, f2, _, _, _⟩ := retainStep_frame b ⟨p, false⟩
   have ht : p.topic ≠ [] := by
@@ -433,7 +434,7 @@ theorem onPublish_char (b : B) (p : Pub) (hinv : Inv b)
     simp only [List.mem_map, List.mem_filter] at this
     obtain ⟨e, ⟨he, _⟩, rfl⟩ := this
     exact ⟨e, he, rfl⟩
-  have hfan := fanout_char subs (retainStep b ⟨p, false⟩).1 ⟨p, false⟩ ht
+  have hfan := fanoutLive_char subs (retainStep b ⟨p, false⟩).1 ⟨p, false⟩ ht
     (by
       rcases hid with h | h
       · exact Or.inl h
@@ -452,7 +453,7 @@ theorem onPublish_char (b : B) (p : Pub) (hinv : Inv b)
   obtain ⟨g1, _, g3⟩ := hfan
   refine ⟨trivial, g1, ?_⟩
   rw [g3]
-  have := hperm.map (fwd p)
+  have := hperm.map (fwd { p with retain := false })
   simpa [List.map_map, Function.comp_def] using this
 
 end Mqtt.Proofs.Broker
